@@ -4,6 +4,8 @@ CONSTANTS
   MaxChild = 2
   MaxPost = 1
   MaxTotal = 2
+  MinPre = 0
+  MinTotal = 0
   Leaky = FALSE
   Alphabet <- AllCmds
   Kinds <- AllKinds
